@@ -941,10 +941,23 @@ impl PosixRenderer {
         }
     }
 
+    /// A position whose column is `cols` stands for a pending wrap: the terminal shows it (and, once
+    /// `refresh_line` has written its own newline, really is) at the start of the next row.
+    fn on_screen(&self, pos: Position) -> Position {
+        if pos.col >= self.cols {
+            Position {
+                col: 0,
+                row: pos.row + 1,
+            }
+        } else {
+            pos
+        }
+    }
+
     fn clear_old_rows(&mut self, layout: &Layout) {
         use std::fmt::Write;
-        let current_row = layout.cursor.row;
-        let old_rows = layout.end.row;
+        let current_row = self.on_screen(layout.cursor).row;
+        let old_rows = self.on_screen(layout.end).row;
         // old_rows < cursor_row if the prompt spans multiple lines and if
         // this is the default State.
         let cursor_row_movement = old_rows.saturating_sub(current_row);
@@ -967,6 +980,7 @@ impl Renderer for PosixRenderer {
     fn move_cursor(&mut self, old: Position, new: Position) -> Result<()> {
         use std::fmt::Write;
         self.buffer.clear();
+        let (old, new) = (self.on_screen(old), self.on_screen(new));
         let row_ordering = new.row.cmp(&old.row);
         if row_ordering == cmp::Ordering::Greater {
             // move down
@@ -1020,8 +1034,10 @@ impl Renderer for PosixRenderer {
         self.buffer.clear();
 
         let default_prompt = new_layout.default_prompt;
-        let cursor = new_layout.cursor;
-        let end_pos = new_layout.end;
+        // the text ends exactly at the right margin: the terminal defers the wrap
+        let wrap_pending = new_layout.end.col >= self.cols;
+        let cursor = self.on_screen(new_layout.cursor);
+        let end_pos = self.on_screen(new_layout.end);
 
         self.clear_old_rows(old_layout);
 
@@ -1047,10 +1063,7 @@ impl Renderer for PosixRenderer {
             }
         }
         // we have to generate our own newline on line wrap
-        if end_pos.col == 0
-            && end_pos.row > 0
-            && !hint.map_or_else(|| line.ends_with('\n'), |h| h.ends_with('\n'))
-        {
+        if wrap_pending {
             self.buffer.push('\n');
         }
         // position the cursor
@@ -1097,10 +1110,8 @@ impl Renderer for PosixRenderer {
                 pos.col = cw;
             }
         }
-        if pos.col == self.cols {
-            pos.col = 0;
-            pos.row += 1;
-        }
+        // `pos.col == self.cols` is kept (pending wrap) so that positions computed piecewise
+        // (prompt, text before the cursor, text after it, hint) add up; see `on_screen`
         pos
     }
 
